@@ -530,10 +530,12 @@ type JCookie struct {
 }
 
 type JOp struct {
-	Kind    string // set | parse | get | sleep | release
-	Host    string
-	Path    string    `json:",omitempty"` // request path
-	Cookies []JCookie `json:",omitempty"`
+	Kind     string    // set | parse | get | sleep | release | redir (GET with MaxRedirects: Host answers 302 to Host2/landing)
+	Host2    string    `json:",omitempty"` // redir: host the first answer redirects to
+	Cookies2 []JCookie `json:",omitempty"` // redir: cookies set by the landing answer
+	Host     string
+	Path     string    `json:",omitempty"` // request path
+	Cookies  []JCookie `json:",omitempty"`
 }
 
 type JarCase struct {
@@ -668,6 +670,79 @@ func checkJar(c JarCase) vk.Verdict {
 				}
 				apply(op.Host, jc)
 			}
+		case "redir":
+			// a redirected exchange: Host answers 302 (with Set-Cookie lines) to http://Host2/landing, which sets cookies of
+			// its own; the client follows redirects. Cookies in this operation all have the path "/".
+			var landingCookies []string
+			landed := false
+			app := fiber.New()
+			setAll := func(ctx fiber.Ctx, cs []JCookie) {
+				for _, jc := range cs {
+					ck := mkCookie(jc)
+					ctx.Response().Header.SetCookie(ck)
+					fasthttp.ReleaseCookie(ck)
+				}
+			}
+			app.Get("/go", func(ctx fiber.Ctx) error {
+				setAll(ctx, op.Cookies)
+				return ctx.Redirect().To("http://" + op.Host2 + "/landing")
+			})
+			app.Get("/landing", func(ctx fiber.Ctx) error {
+				landed = true
+				ctx.Request().Header.VisitAllCookie(func(k, v []byte) { landingCookies = append(landingCookies, string(k)+"="+string(v)) })
+				setAll(ctx, op.Cookies2)
+				return ctx.SendString("landed")
+			})
+			ln := fasthttputil.NewInmemoryListener()
+			go func() { _ = app.Listener(ln, fiber.ListenConfig{DisableStartupMessage: true}) }()
+			cl := client.New().SetDial(func(string) (net.Conn, error) { return ln.Dial() }).SetCookieJar(jar).SetTimeout(20 * time.Second)
+			resp, err := cl.Get("http://"+op.Host+"/go", client.Config{MaxRedirects: 3})
+			if err != nil {
+				_ = app.Shutdown()
+				return vk.Failf("op %d redir: request failed: %v", i, err)
+			}
+			body := string(resp.Body())
+			resp.Close()
+			_ = app.Shutdown()
+			if !landed || body != "landed" {
+				return vk.Failf("op %d redir: the redirect from %s to %s was not followed (body %q)", i, op.Host, op.Host2, body)
+			}
+			// what the landing host may have been sent: its own live cookies as they were BEFORE its answer, after the
+			// first hop's cookies were learned
+			for _, jc := range op.Cookies {
+				apply(op.Host, jc)
+			}
+			mustL, mayL := "", ""
+			if m := model[hostKey(op.Host2)]["k1"]; m != nil { // (only the path-"/" key is judged here)
+				switch m.exp {
+				case "session", "far":
+					mustL = "k1=" + m.val
+				case "short", "shortparse":
+					mayL = "k1=" + m.val // may or may not have expired meanwhile
+				}
+			}
+			var gotL []string
+			for _, g := range landingCookies {
+				if strings.HasPrefix(g, "k1=") {
+					gotL = append(gotL, g)
+				}
+			}
+			okL := len(gotL) <= 1
+			if len(gotL) == 1 {
+				okL = gotL[0] == mustL || gotL[0] == mayL
+			} else if len(gotL) == 0 {
+				okL = mustL == ""
+			}
+			if !okL {
+				return vk.Failf("op %d: GET http://%s/go was redirected to http://%s/landing, which received the cookies %v; the jar holds for that host: %q (possibly expired: %q) (history %+v)", i, op.Host, op.Host2, landingCookies, mustL, mayL, c.Ops[:i+1])
+			}
+			for _, jc := range op.Cookies2 {
+				apply(op.Host2, jc)
+			}
+			v.Classes = append(v.Classes, "redirect-followed")
+			if hostKey(op.Host) != hostKey(op.Host2) {
+				v.Classes = append(v.Classes, "redirect-to-another-host")
+			}
 		case "get":
 			got := jar.Get(u)
 			var gs []string
@@ -799,6 +874,17 @@ func genJar(t *rapid.T) JarCase {
 			op.Kind = "set"
 		case k <= 4:
 			op.Kind = "parse"
+		case k == 5 && rapid.Bool().Draw(t, "redirnotsleep"):
+			op.Kind = "redir"
+			op.Host2 = rapid.SampledFrom(hosts).Draw(t, "host2")
+			op.Path = "/go"
+			mk := func(label string) []JCookie {
+				if rapid.Bool().Draw(t, label+"has") {
+					return []JCookie{{Key: "k1", Val: fmt.Sprintf("v%d_%s", i, label), Exp: rapid.SampledFrom([]string{"session", "far"}).Draw(t, label+"exp")}}
+				}
+				return nil
+			}
+			op.Cookies, op.Cookies2 = mk("hop1"), mk("hop2")
 		case k == 5:
 			op.Kind = "sleep"
 		case k == 6 && rapid.IntRange(0, 3).Draw(t, "rel") == 0:
